@@ -12,6 +12,7 @@
 (*                                                                         *)
 (* Kind "fr" (C17): per scenario the global sequence of events             *)
 (*    reset, call (Send invoked), ret (Send returned / panicked),          *)
+(*    drop (Send reported the enqueue timeout for one destination),        *)
 (*    in (InMsg taken from a receiver's channel), crash, end.              *)
 (* The state is the set of message copies accepted for sending and not yet *)
 (* received; an `in' event must be explained by the oldest pending copy of *)
@@ -30,14 +31,14 @@ VARIABLES l,
           got,     \* fr: {<<at, from, content>>} received
           viol,    \* monitors already reported for the current scenario / case
           drift,
-          npanic, ndeliv
+          npanic, ndeliv, ndrop
 
-tvars == <<vars, l, tid, meta, pend, got, viol, drift, npanic, ndeliv>>
+tvars == <<vars, l, tid, meta, pend, got, viol, drift, npanic, ndeliv, ndrop>>
 Line == Trace[l]
 
 NoMeta == [e |-> "none"]
 TInit == /\ HIdle /\ FIdle
-         /\ l = 1 /\ tid = -1 /\ meta = NoMeta /\ pend = {} /\ got = {} /\ viol = {} /\ drift = "" /\ npanic = 0 /\ ndeliv = 0
+         /\ l = 1 /\ tid = -1 /\ meta = NoMeta /\ pend = {} /\ got = {} /\ viol = {} /\ drift = "" /\ npanic = 0 /\ ndeliv = 0 /\ ndrop = 0
 
 (* ------------------------------ C16 ------------------------------------- *)
 
@@ -59,10 +60,9 @@ HsMonitors(o) ==
 HsDrift(o) ==
   LET h == HsOf(o)
       v == CodeVerdict(h, 1) IN
-  CASE v.res = "crash" /\ ~o.crashed -> "model predicts a crash (" \o v.why \o "), the process survived"
-    [] v.res = "accept" /\ ~o.crashed /\ ~(Len(o.attr) = 1 /\ o.attr[1].from = v.node) -> "model accepts, the code does not attribute (" \o h.enc \o ")"
+  CASE v.res = "accept" /\ ~o.crashed /\ ~(Len(o.attr) = 1 /\ o.attr[1].from = v.node) -> "model accepts, the code does not attribute (" \o h.enc \o ")"
     [] v.res = "reject" /\ ~o.crashed /\ Len(o.attr) > 0 -> "model rejects (" \o v.why \o "), the code attributes"
-    [] v.res # "crash" /\ o.crashed -> "the process died although the model predicts " \o v.res
+    [] o.crashed -> "the process died although the model predicts " \o v.res
     [] OTHER -> ""
 
 HsStep ==
@@ -72,7 +72,7 @@ HsStep ==
      /\ \A b \in bad : PrintT(<<"VIOL", ToJson([c |-> o.c, mon |-> b, cls |-> Class(HsOf(o), 1), why |-> CodeVerdict(HsOf(o), 1).why])>>)
      /\ PrintT(<<"END", ToJson([c |-> o.c, drift |-> HsDrift(o), model |-> CodeVerdict(HsOf(o), 1).res, attributed |-> Len(o.attr),
                                 allowed |-> Allowed(HsOf(o), 1) # {}])>>)
-  /\ UNCHANGED <<tid, meta, pend, got, viol, drift, npanic, ndeliv>>
+  /\ UNCHANGED <<tid, meta, pend, got, viol, drift, npanic, ndeliv, ndrop>>
 
 (* ------------------------------ C17 ------------------------------------- *)
 
@@ -87,20 +87,28 @@ Rng2(s) == {s[i] : i \in DOMAIN s}
 
 Reset ==
   /\ Line.e = "reset"
-  /\ tid' = Line.t /\ meta' = Line /\ pend' = {} /\ got' = {} /\ viol' = {} /\ drift' = "" /\ npanic' = 0 /\ ndeliv' = 0
+  /\ tid' = Line.t /\ meta' = Line /\ pend' = {} /\ got' = {} /\ viol' = {} /\ drift' = "" /\ npanic' = 0 /\ ndeliv' = 0 /\ ndrop' = 0
 
 Call ==
   /\ Line.e = "call"
   /\ pend' = pend \cup {[g |-> Line.g, k |-> Line.k, from |-> Line.from, to |-> Line.to[i], m |-> Line.m, call |-> l, ret |-> 0,
                          opt |-> FALSE, raw |-> Line.raw, conn |-> IF Line.raw THEN Line.g ELSE "real"] : i \in {j \in DOMAIN Line.to : Line.to[j] \in Rng2(meta.recv)}}
-  /\ UNCHANGED <<tid, meta, got, viol, drift, npanic, ndeliv>>
+  /\ UNCHANGED <<tid, meta, got, viol, drift, npanic, ndeliv, ndrop>>
 
 Ret ==
   /\ Line.e = "ret"
-  /\ pend' = {IF p.g = Line.g /\ p.k = Line.k THEN [p EXCEPT !.ret = l, !.opt = (Line.panic # "")] ELSE p : p \in pend}
+  /\ pend' = {IF p.g = Line.g /\ p.k = Line.k THEN [p EXCEPT !.ret = l, !.opt = (@ \/ Line.panic # "")] ELSE p : p \in pend}
   /\ npanic' = npanic + (IF Line.panic # "" THEN 1 ELSE 0)
   /\ IF Line.panic # "" THEN Report({"NoPanic"}, "Send panicked: " \o Line.panic) ELSE viol' = viol
-  /\ UNCHANGED <<tid, meta, got, drift, ndeliv>>
+  /\ UNCHANGED <<tid, meta, got, drift, ndeliv, ndrop>>
+
+\* Send reported "timeout sending to <to>": the copy towards that destination of a Send call that is still open was given up; it
+\* was not accepted for sending (if several calls of the node are open towards that destination all of them are exempted)
+Drop ==
+  /\ Line.e = "drop"
+  /\ pend' = {IF p.from = Line.from /\ p.to = Line.to /\ p.ret = 0 /\ ~p.raw THEN [p EXCEPT !.opt = TRUE] ELSE p : p \in pend}
+  /\ ndrop' = ndrop + 1
+  /\ UNCHANGED <<tid, meta, got, viol, drift, npanic, ndeliv>>
 
 In ==
   /\ Line.e = "in"
@@ -124,17 +132,17 @@ In ==
                  THEN SetDrift(IF bad # {} THEN "order / layout difference on a raw endpoint" ELSE "") /\ viol' = viol
                  ELSE Report(bad, "delivery out of order or altered") /\ drift' = drift
   /\ ndeliv' = ndeliv + 1
-  /\ UNCHANGED <<tid, meta, npanic>>
+  /\ UNCHANGED <<tid, meta, npanic, ndrop>>
 
 Crash ==
   /\ Line.e = "crash"
   /\ Report({"NoPanic"}, "the process died: " \o Line.what)
   /\ npanic' = npanic + 1
-  /\ UNCHANGED <<tid, meta, pend, got, drift, ndeliv>>
+  /\ UNCHANGED <<tid, meta, pend, got, drift, ndeliv, ndrop>>
 
 Skip ==
   /\ Line.e \in {"rawbad", "up", "note"}
-  /\ UNCHANGED <<tid, meta, pend, got, viol, drift, npanic, ndeliv>>
+  /\ UNCHANGED <<tid, meta, pend, got, viol, drift, npanic, ndeliv, ndrop>>
 
 End ==
   /\ Line.e = "end"
@@ -145,15 +153,16 @@ End ==
          iso == {p \in lost : faulty /\ p.to # meta.victim /\ p.from # meta.victim}
          bad == (IF iso # {} THEN {"FaultIsolated"} ELSE {}) \cup (IF lost \ iso # {} THEN {"Delivered"} ELSE {})
          d == IF lostRaw # {} THEN "frames of a raw endpoint were not delivered (wire layout)"
-              ELSE IF meta.expect_panic /\ npanic = 0 THEN "model predicts the enqueue-timeout panic, none observed"
+              ELSE IF meta.expect_drop /\ ndrop = 0 THEN "model predicts a copy given up after the enqueue timeout, none reported"
+              ELSE IF ~meta.expect_drop /\ ndrop > 0 THEN "an enqueue timeout was reported in a scenario in which the model has none"
               ELSE "" IN
      /\ Report(bad, "messages accepted for sending were not received by the end of the run")
      /\ SetDrift(d)
      /\ PrintT(<<"END", ToJson([t |-> tid, drift |-> IF drift # "" THEN drift ELSE d, delivered |-> ndeliv, lost |-> Cardinality(lost),
-                                panics |-> npanic, complete |-> Line.complete, viols |-> Cardinality(viol \cup bad)])>>)
-  /\ UNCHANGED <<tid, meta, pend, got, npanic, ndeliv>>
+                                panics |-> npanic, drops |-> ndrop, complete |-> Line.complete, viols |-> Cardinality(viol \cup bad)])>>)
+  /\ UNCHANGED <<tid, meta, pend, got, npanic, ndeliv, ndrop>>
 
-FrStep == Kind = "fr" /\ (Reset \/ Call \/ Ret \/ In \/ Crash \/ Skip \/ End)
+FrStep == Kind = "fr" /\ (Reset \/ Call \/ Ret \/ Drop \/ In \/ Crash \/ Skip \/ End)
 
 TNext == /\ l <= Len(Trace)
          /\ l' = l + 1
